@@ -384,3 +384,81 @@ def project_file_links(ctx):
     else:
         ctx.inconclusive.append("vacuity: nothing converted")
     ctx.sample({"paths": E.paths})
+
+
+# ---------------------------------------------------------------------------------------
+# O4: references inside code stay verbatim (inline code spans, fenced and indented code blocks); outside they become links
+# ---------------------------------------------------------------------------------------
+CODE_FORMS = [("See [[mod_a]] now.", True, "plain text"), ("Use `call [[work]](2)` here.", False, "inline code span"),
+              ("Use ``[[mod_a]]`` here.", False, "double-backtick code span"), ("Text\n\n    x = [[mod_a]]\n\nmore", False, "indented code block"),
+              ("Text\n\n```\ncall [[work]]\n```\n\nmore", False, "fenced code block"), ("A `code` and [[mod_b]] outside.", True, "link next to a code span"),
+              ("`a` [[mod_a]] `b`", True, "link between two code spans")]
+
+
+def _convert_doc(text):
+    import io, contextlib
+    import ford.sourceform as sf
+    from ford._markdown import MetaMarkdown
+    old = sf.namelist
+    sf.namelist = sf.NameSelector()
+    try:
+        with contextlib.redirect_stdout(io.StringIO()), contextlib.redirect_stderr(io.StringIO()):
+            project = parserh.project_concrete({k: list(v) for k, v in PROG.items()}, **PSET)
+            md = MetaMarkdown(".", base_url=pathlib.Path("/base"), project=project)
+            return md.reset().convert(text, path=pathlib.Path("/base/page"))
+    finally:
+        sf.namelist = old
+
+
+def _code_verdict(html_text):
+    import re as _r
+    in_code = _r.findall(r"<code[^>]*>(.*?)</code>", html_text, _r.S)
+    link_in_code = any("<a " in c or "<a>" in c for c in in_code)
+    import html as _h
+    verbatim_in_code = any("[[" in _h.unescape(_r.sub(r"<[^>]*>", "", c)) for c in in_code)   # code blocks are syntax-highlighted with <span>s
+    outside = _r.sub(r"<code[^>]*>.*?</code>", "", html_text, flags=_r.S)
+    return link_in_code, verbatim_in_code, ("<a " in outside), ("[[" in outside)
+
+
+def replay_code(w):
+    html_text = _convert_doc(w["text"])
+    lic, vic, lout, vout = _code_verdict(html_text)
+    bad = lic or (w["expect_link"] and (not lout or vout)) or (not w["expect_link"] and not vic)
+    return bad, {"documentation text": w["text"], "rendered": html_text[:300], "link inside <code>": lic, "reference kept verbatim inside <code>": vic,
+                 "link outside code": lout}
+
+
+@obligation("C11", "O4.references-in-code-stay-verbatim", engine="SX(CV)", timeout=600)
+def code_spans(ctx):
+    """documentation text with a [[...]] reference in a symbolic position (plain text, inline code span, double-backtick span, indented
+    block, fenced block, next to code): inside code the text stays verbatim and no link is made; outside it becomes a link"""
+    import ford._markdown as mk
+
+    ctx.encode_fn(mk.FordLinkExtension.extendMarkdown)
+    ctx.encode_fn(mk.FordLinkProcessor.handleMatch)
+    ctx.bounds.update({"forms": [f[2] for f in CODE_FORMS]})
+    ctx.stubs.append("python-markdown needs concrete text: one path per form; MetaMarkdown and the project are real")
+
+    def h(E):
+        i = CV.choice(E, "form", list(range(len(CODE_FORMS)))).concretize()
+        text, expect_link, what = CODE_FORMS[i]
+        E.e.snapshot = lambda m: {"text": text, "expect_link": expect_link, "form": what}
+        from fv import patch as _p
+        with _p.suspended():
+            bad, detail = replay_code({"text": text, "expect_link": expect_link})
+        E.reachable("converted")
+        E.require(not bad, f"{what}: " + ("a reference inside code was turned into a link / altered" if not expect_link else "a reference outside code was not linked"))
+
+    E = sym.Engine(ctx, max_paths=100, incremental=True)
+    found = E.explore(h)
+    seen = set()
+    for (label, m, pc), snap in zip(found, E.snapshots):
+        if label in seen or not snap:
+            continue
+        seen.add(label)
+        ctx.report(label, snap, replay_code)
+    if E.reached.get("converted"):
+        ctx.twins += 1
+    else:
+        ctx.inconclusive.append("vacuity: nothing converted")
+    ctx.sample({"paths": E.paths})
